@@ -26,3 +26,6 @@ func ThreadID() int { return 0 }
 
 // Park holds the calling goroutine until every other goroutine is finished, blocked or parked too.
 func Park() {}
+
+// Tier is 0 in the quick tier and 1 in the thorough tier.
+func Tier() int { return 0 }
